@@ -184,13 +184,20 @@ func (c *Ctx) checkOrder(rule string, fn *ssa.Function, aDesc string, a map[ssa.
 	return c.checkOrderG(rule, fn, aDesc, a, bDesc, b, false)
 }
 
-// checkOrderL: as checkOrder, but a for-each loop whose body always passes A counts as A
+// checkOrderL: as checkOrder, but a for-each loop whose body always passes A
+// (modulo nil/empty guards on A's own operands) counts as A
 func (c *Ctx) checkOrderL(rule string, fn *ssa.Function, aDesc string, a map[ssa.Instruction]bool, bDesc string, b map[ssa.Instruction]bool) bool {
 	a2 := map[ssa.Instruction]bool{}
+	allowed := map[ssa.Value]bool{}
 	for k := range a {
 		a2[k] = true
+		if ci, ok := k.(ssa.CallInstruction); ok {
+			for r := range rootsOfCall(ci) {
+				allowed[r] = true
+			}
+		}
 	}
-	addLoopEvents(c.P, fn, a2, nil)
+	addLoopEvents(c.P, fn, a2, edgeSet(emptinessGuardEdges(fn, allowed)))
 	return c.checkOrderG(rule, fn, aDesc, a2, bDesc, b, false)
 }
 
